@@ -108,6 +108,10 @@ pub fn run(a: &Args) {
             "plain" => vec![AGroup { tag: 4, attrs: pa }],
             "op-first" => vec![AGroup { tag: 1, attrs: vec![("attributes-charset".into(), AV::Str("Charset", "utf-8".into()))] }, AGroup { tag: 4, attrs: pa }],
             "two-printer-groups" => vec![AGroup { tag: 1, attrs: vec![] }, AGroup { tag: 4, attrs: pa }, AGroup { tag: 4, attrs: decoy }],
+            "second-printer-ready" => {
+                let ready = vec![("printer-state".to_string(), AV::Enum(3)), ("printer-state-reasons".to_string(), AV::Str("Keyword", "none".into()))];
+                vec![AGroup { tag: 4, attrs: pa }, AGroup { tag: 4, attrs: ready.clone() }, AGroup { tag: 4, attrs: ready }]
+            }
             "reasons-in-second" => vec![AGroup { tag: 4, attrs: pa }, AGroup { tag: 2, attrs: decoy }],
             _ => vec![AGroup { tag: 2, attrs: decoy }, AGroup { tag: 4, attrs: pa }],
         };
